@@ -18,6 +18,8 @@ Line protocol of the secure-session model (domain `sec`).  hex = lower-case hex,
   sec cprof <a|s> <a|s>                          → 0 | 1
   sec redirect <r|s> <chain of r|s, - = empty>   → <final r|s> <index of the refused Location | ->
   sec asecure <r|s> <n|u|m|t> <any 0|1>          → 0 | 1
+  sec fanout <reader profiles a|s, comma list>   → per reader c (E image) | p (plain), RTP then RTCP:  <list> <list>
+         one packet / one sender report of a TLS server's stream written to that reader population
   sec ckey <managed 0|1> <response 0|1> <media 0|1> <session 0|1>   → own | response | media | session | missing
   sec pinit <key> <mki> <ssrcs> <rocs>           → err | ok                       sender context A
   sec phand <nowNs> <tsValue>                    → err | ok <key> <mki> <ssrcs> <startROCs> <ROC per ssrc>    receiver B from A's MIKEY
@@ -219,6 +221,21 @@ def mk : IO Handler := do
       match parseSch sch, parseOptSP cp with
       | some sch, some cp => return b2s (announceSecure sch cp (any == "1"))
       | _, _ => return "bad-op"
+    | ["fanout", profs] =>
+      match parseList profs "," parsePr with
+      | some ps =>
+        let c0 : Ctx := { key := List.replicate 30 1, mki := [], ssrcs := [7], startROCs := [] }
+        let readers : List SessMedia := ps.map fun p =>
+          { protocol := .tcp, profile := p, srtpIn := none, srtpOut := if isSecure p then some c0 else none }
+        let cfg : ServerCfg := { tls := true, udp := true, mcast := false }
+        let rtp := match streamWriteRTP ideal (streamCtx cfg c0) readers { ssrc := 7, seq := 1, payload := [1, 2, 3] } with
+          | some (_, fs) => showList fs "," fun f => match f.body with | .prot _ => "c" | .plain _ => "p"
+          | none => "err"
+        let rtcp := match streamWriteRTCP ideal (streamCtx cfg c0) readers 7 [1, 2, 3] with
+          | some (_, bs) => showList bs "," fun b => match b with | .prot _ => "c" | .plain _ => "p"
+          | none => "err"
+        return s!"{rtp} {rtcp}"
+      | none => return "bad-op"
     | ["ckey", a, b, m, s] =>
       return match clientInKeySource (a == "1") (b == "1") (m == "1") (s == "1") with
         | .own => "own" | .response => "response" | .mediaSdp => "media" | .sessionSdp => "session" | .missing => "missing"
